@@ -49,7 +49,7 @@ class Gen(object):
         self.max_depth = max_depth
         f = {"history": True, "parallel": True, "targetless": True, "multitarget": True, "internal": True,
              "eventless": True, "sends": True, "ifs": True, "late": True, "initial_el": True, "done_events": True,
-             "finals": True, "cond": True}
+             "finals": True, "cond": True, "par_bias": False, "small_alphabet": False, "delayed_internal": True}
         f.update(features or {})
         self.f = f
         self.nlog = 0
@@ -99,9 +99,34 @@ class Gen(object):
                     self.vars.append(name)
         self.budget = r.randint(2, self.max_states)
         self.counter = {"s": 0, "f": 0, "h": 0, "p": 0}
-        n_top = r.randint(1, 3)
-        for i in range(n_top):
-            self.make_state(root, 1)
+        if self.f["par_bias"]:
+            # many regions reacting to the same few events: what the engines' conflict caches and matrices are about
+            holder = root
+            if r.random() < 0.4:
+                holder = root.add(El("state", {"id": self.new_id("s")}))
+            p = holder.add(El("parallel", {"id": self.new_id("p")}))
+            for _ in range(r.randint(2, 4)):
+                reg = p.add(El("state", {"id": self.new_id("s")}))
+                for _ in range(r.choice([1, 1, 2, 2, 3])):
+                    if r.random() < 0.25:
+                        q = reg.add(El("parallel", {"id": self.new_id("p")}))
+                        for _ in range(2):
+                            q.add(El("state", {"id": self.new_id("s")}))
+                    elif r.random() < 0.25:
+                        c = reg.add(El("state", {"id": self.new_id("s")}))
+                        for _ in range(r.randint(1, 2)):
+                            c.add(El("state", {"id": self.new_id("s")}))
+                    else:
+                        reg.add(El("state", {"id": self.new_id("s")}))
+                if self.f["history"] and r.random() < 0.2:
+                    reg.add(El("history", {"id": self.new_id("h"), "type": r.choice(["shallow", "deep"])}))
+            if r.random() < 0.5:
+                root.add(El("state", {"id": self.new_id("s")}))
+            self.budget = 0
+        else:
+            n_top = r.randint(1, 3)
+            for i in range(n_top):
+                self.make_state(root, 1)
         if self.f["finals"] and r.random() < 0.7:
             root.add(El("final", {"id": self.new_id("f")}))
         self.root = root
@@ -135,7 +160,7 @@ class Gen(object):
             self.fill_block(tr, r.randint(0, 1))
         # transitions
         for s in states:
-            for _ in range(r.choice([0, 1, 1, 2, 2, 3])):
+            for _ in range(r.choice([0, 1, 1, 2, 2, 3] if not self.f["par_bias"] else [1, 1, 2, 2, 3])):
                 self.make_transition(s, all_targets)
         # onentry / onexit
         for s in [e for e in root.walk() if e.tag in ("state", "parallel", "final")]:
@@ -203,7 +228,7 @@ class Gen(object):
         x = r.random()
         eventless = self.f["eventless"] and x < 0.22
         if not eventless:
-            d = r.choice(DESCRIPTORS)
+            d = r.choice(DESCRIPTORS if not self.f["small_alphabet"] else ["a", "b", "a", "b", "a.x", "a b", "*"])
             if self.f["done_events"] and r.random() < 0.15:
                 cands = [e for e in self.root.walk() if e.tag in ("state", "parallel") and [c for c in e.children if c.tag in ("state", "parallel", "final")]]
                 if cands:
@@ -212,12 +237,20 @@ class Gen(object):
         order = {id(e): n for n, e in enumerate(self.root.walk())}
         y = r.random()
         targets = None
-        if self.f["targetless"] and y < 0.1 and not eventless:
+        if self.f["targetless"] and y < (0.1 if not self.f["par_bias"] else 0.25) and not eventless:
             targets = []
         elif self.f["multitarget"] and y < 0.2:
             targets = self.orthogonal_targets()
         if targets is None:
             cands = all_targets
+            if self.f["par_bias"] and not eventless and r.random() < 0.7:
+                # stay inside the own region most of the time, so that transitions of different regions are compatible
+                reg = s
+                while reg.parent is not None and reg.parent.tag != "parallel":
+                    reg = reg.parent
+                local = [t for t in all_targets if t is reg or self._is_desc(t, reg)]
+                if local:
+                    cands = local
             if eventless:
                 # forward edges only: bounds eventless chains
                 cands = [t for t in all_targets if order[id(t)] > order[id(s)] and not self._is_desc(t, s)] or None
@@ -282,8 +315,9 @@ class Gen(object):
                 self.sendids.append(sid)
             if r.random() < 0.15:
                 at["target"] = "#_internal"
-                at.pop("delay", None)
-                d = 0
+                if not (self.f["delayed_internal"] and d and r.random() < 0.5):
+                    at.pop("delay", None)
+                    d = 0
             blk.add(El("send", at, delay=d))
         elif k == "cancel":
             blk.add(El("cancel", {"sendid": r.choice(self.sendids + ["id0", "nosuch"])}))
@@ -309,6 +343,8 @@ class Gen(object):
 BAD_EXPR = {"lua": ["1 +", "nosuchfn()", "(1)(2)"], "promela": ["1 +", "nosuchvar + 1", "7 / 0", "7 % 0"], "null": []}
 BAD_SEND = [({"type": "nosuch-ioproc"}, "error.execution"), ({"target": "bogus-target"}, "error.execution"),
             ({"target": "#_nosuchinvoke"}, "error.communication")]
+# sends whose namelist / <param> cannot be evaluated (datamodels with expressions only)
+BAD_SEND_DM = [({"namelist": "\"foo"}, None), ({}, "1 +"), ({}, "nosuchfn()")]
 
 
 def failure_of(e, dm):
@@ -321,6 +357,11 @@ def failure_of(e, dm):
         for (at, evn) in BAD_SEND:
             if all(e.attrs.get(k) == v for k, v in at.items()):
                 return evn
+        if dm in ("lua",) and e.attrs.get("namelist") == "\"foo":
+            return "error.execution"
+        for c in e.children:
+            if c.tag == "param" and c.attrs.get("expr") in BAD_EXPR.get(dm, []) and c.attrs.get("expr") not in ("7 / 0", "7 % 0"):
+                return "error.execution"
     return None
 
 
@@ -348,8 +389,15 @@ def plant_failure(root, r, dm):
         return None
     blk = r.choice(blocks)
     if kind == "send":
-        at, evn = r.choice(BAD_SEND)
-        el = El("send", dict({"event": "failing"}, **at), delay=0)
+        if BAD_EXPR.get(dm) and r.random() < 0.4:
+            el = El("send", {"event": "failing"}, delay=0)
+            if dm == "lua" and r.random() < 0.4:
+                el.attrs["namelist"] = "\"foo"
+            else:
+                el.add(El("param", {"name": "p", "expr": r.choice([x for x in BAD_EXPR[dm] if x not in ("7 / 0", "7 % 0")])}))
+        else:
+            at, evn = r.choice(BAD_SEND)
+            el = El("send", dict({"event": "failing"}, **at), delay=0)
     elif kind == "log":
         el = El("log", {"label": "FAIL", "expr": r.choice(BAD_EXPR[dm])})
     elif kind == "assign":
